@@ -207,7 +207,10 @@ Fixpoint find_path (p : path) (l : list fent) : option fent :=
 (* ---- iter_changes (by file id) -------------------------------------------- *)
 Record change := {
   c_old : option path; c_new : option path; c_name : option name;
-  c_kind : option N; c_fid : bytes; c_cc : bool (* changed_content *) }.
+  c_kind : option N; c_fid : bytes; c_cc : bool (* changed_content *);
+  (* where the directory the entry left is NOW (InterTree.find_target_path of dirname(old path)); only for
+     entries whose path changed *)
+  c_odn : option path }.
 
 Definition ent_differs (b e : fent) : bool :=
   negb (bytes_eqb (f_pfid b) (f_pfid e)) || negb (bytes_eqb (f_name b) (f_name e)) ||
@@ -222,17 +225,20 @@ Definition changes (base : list fent) (t : list fent) : list change :=
   flat_map (fun e =>
     match find_fid (f_fid e) base with
     | None => [{| c_old := None; c_new := Some (f_path e); c_name := Some (f_name e);
-                  c_kind := Some (k_kind (f_node e)); c_fid := f_fid e; c_cc := true |}]
+                  c_kind := Some (k_kind (f_node e)); c_fid := f_fid e; c_cc := true; c_odn := None |}]
     | Some b => if ent_differs b e
                 then [{| c_old := Some (f_path b); c_new := Some (f_path e); c_name := Some (f_name e);
                          c_kind := Some (k_kind (f_node e)); c_fid := f_fid e;
-                         c_cc := content_differs b e |}]
+                         c_cc := content_differs b e;
+                         c_odn := if path_eqb (f_path b) (f_path e) then None
+                                  else option_map f_path (find_fid (f_pfid b) t) |}]
                 else []
     end) t ++
   flat_map (fun b =>
     match find_fid (f_fid b) t with
     | None => [{| c_old := Some (f_path b); c_new := None; c_name := None;
-                  c_kind := None; c_fid := f_fid b; c_cc := true |}]
+                  c_kind := None; c_fid := f_fid b; c_cc := true;
+                  c_odn := option_map f_path (find_fid (f_pfid b) t) |}]
     | Some _ => []
     end) base.
 
@@ -257,7 +263,9 @@ Definition opt_list {A} (o : option A) : list A := match o with Some x => [x] | 
 Definition dirty_dirs (cs : list change) (um : umap) : list path :=
   (* a change whose new name is banned is not exported, but (since 4f049bc) the directories it left
      and entered are dirty all the same *)
-  flat_map (fun c => flat_map (fun p => prefixes (dirname p)) (opt_list (c_old c) ++ opt_list (c_new c))) cs
+  flat_map (fun c => flat_map (fun p => prefixes (dirname p)) (opt_list (c_old c) ++ opt_list (c_new c))
+                     (* the directory an entry left may itself have been renamed: its new path is dirty too *)
+                     ++ flat_map prefixes (opt_list (c_odn c))) cs
   ++ flat_map (fun pm => prefixes (dirname (fst pm))) um.
 
 (* ---- the incremental conversion ------------------------------------------- *)
